@@ -15,7 +15,7 @@ import compiles
 import vlib
 
 WORKER = os.path.join(vlib.ROOT, "tools", "hist_worker.py")
-POOL = [("lut_heavy", None), ("single:logistic", None), ("single:tanh", None), ("single:lrelu", None), ("single:hswish", None),
+POOL = [("multi_custom", None), ("ew_dag", None), ("lut_heavy", None), ("single:logistic", None), ("single:tanh", None), ("single:lrelu", None), ("single:hswish", None),
         ("conv_chain", None), ("diamond", None), ("mixed_cpu", None), ("single:conv", None), ("single:add", None),
         ("single:softmax", None), ("conv_chain_big", None), ("single:fc", None), ("single:mean", None)]
 ACCS = ["ethos-u65-256", "ethos-u55-128", "ethos-u65-512", "ethos-u55-64"]
@@ -67,6 +67,7 @@ def run(tier):
     # corpus-style fixed shapes first: A;A, A;B;A, mixed entry points, mixed accelerators
     def st(fam, sd, acc=None, entry="main"):
         return {"family": fam, "seed": "c14-%s" % sd, "args": (["--accelerator-config", acc] if acc else []) if entry == "main" else [], "entry": entry}
+    histories.append([st("multi_custom", 1), st("multi_custom", 2), st("multi_custom", 1, entry="convert_bytes")])
     histories.append([st("lut_heavy", 1), st("lut_heavy", 1)])
     histories.append([st("lut_heavy", 1), st("lut_heavy", 2), st("lut_heavy", 1), st("lut_heavy", 1, entry="convert"), st("lut_heavy", 1, entry="convert_bytes")])
     histories.append([st("single:logistic", 1), st("single:logistic", 2), st("single:tanh", 3), st("single:logistic", 1)])
@@ -91,7 +92,7 @@ def run(tier):
             k = norm(s)
             if k not in solos:
                 solos[k] = [{"family": k[0], "seed": k[1], "args": list(k[2]), "entry": "main"}]
-    seeds = ["0", "1", "4242"] if tier == "quick" else ["0", "1", "2", "17", "4242", "999983"]
+    seeds = ["0", "1", "2", "3", "4242"] if tier == "quick" else ["0", "1", "2", "3", "4", "5", "17", "4242", "999983"]
     with concurrent.futures.ThreadPoolExecutor(max_workers=vlib.NCPU) as ex:
         solo_keys = list(solos)
         solo_res = list(ex.map(lambda k: run_history(solos[k], "0"), solo_keys))
